@@ -71,19 +71,29 @@ Alt(n) == [c \in 1..n |-> (c + 1) % 2]         \* 0, 1, 0, 1, 0
 AbsButLast(n) == [c \in 1..n |-> c < n]
 
 \* ---- slices of the case space (n classes) ---------------------------------------------------
+\* Every slice ranges over *all* DAGs on n classes.  With full = FALSE (quick tier, n >= 4) the other
+\* dimensions of the larger slices are thinned out; n <= 3 is always complete.
 \* A: every DAG x every assignment of abstract flags
-PartA(n) == {Case(Hier(d, TRUE, AllClass(n), abs, Mod3(n), Const(n, 1), Const(n, 0), Const(n, "none")),
-                  Identity(n), "super_first", "A")
-             : d \in Dags(n), abs \in [1..n -> BOOLEAN]}
+PartA(n, full) ==
+    {Case(Hier(d, TRUE, AllClass(n), abs, Mod3(n), Const(n, 1), Const(n, 0), Const(n, "none")),
+          Identity(n), "super_first", "A")
+     : d \in Dags(n), abs \in [1..n -> BOOLEAN]}
 \* B: every DAG x every assignment of names (the sort draws its roots from a name-sorted set)
-PartB(n) == {Case(Hier(d, TRUE, AllClass(n), AbsButLast(n), Const(n, 1), Alt(n), Const(n, 0), Const(n, "none")),
-                  r, "super_first", "B")
-             : d \in Dags(n), r \in Perms(n)}
+Rot(n, k) == [c \in 1..n |-> ((c + k - 1) % n) + 1]
+PartB(n, full) ==
+    {Case(Hier(d, TRUE, AllClass(n), AbsButLast(n), Const(n, 1), Alt(n), Const(n, 0), Const(n, "none")),
+          r, "super_first", "B")
+     : d \in Dags(n),
+       r \in IF full \/ n <= 3 THEN Perms(n) ELSE {Identity(n), Rev(Identity(n)), Rot(n, 1), Rev(Rot(n, 2))}}
 \* C: every DAG x declared with_model_type per class
-WmtChoices(n, full) == IF full THEN [1..n -> {"none", "true", "false"}] ELSE [1..n -> {"none", "true"}]
-PartC(n, full) == {Case(Hier(d, TRUE, AllClass(n), AbsButLast(n), Const(n, 1), Const(n, 0), Const(n, 0), w),
-                        Identity(n), "super_first", "C")
-                   : d \in Dags(n), w \in WmtChoices(n, full)}
+WmtChoices(n, full) ==
+    IF n <= 3 THEN [1..n -> {"none", "true", "false"}]
+    ELSE IF full THEN [1..n -> {"none", "true"}]
+    ELSE {Const(n, "true")} \cup {[c \in 1..n |-> IF c = k THEN "true" ELSE "none"] : k \in 1..n}
+PartC(n, full) ==
+    {Case(Hier(d, TRUE, AllClass(n), AbsButLast(n), Const(n, 1), Const(n, 0), Const(n, 0), w),
+          Identity(n), "super_first", "C")
+     : d \in Dags(n), w \in WmtChoices(n, full)}
 \* D: every DAG x member profiles x order of the bases x constructor style
 MemberProfiles(n) ==
     {[np |-> Mod3(n), ni |-> Alt(n), nm |-> Const(n, 0)],
@@ -91,32 +101,51 @@ MemberProfiles(n) ==
      [np |-> Alt(n), ni |-> Mod3(n), nm |-> [c \in 1..n |-> IF c = 1 THEN 1 ELSE 0]],
      [np |-> Const(n, 0), ni |-> Const(n, 0), nm |-> Const(n, 1)],
      [np |-> [c \in 1..n |-> IF c = 1 THEN 0 ELSE 1], ni |-> Const(n, 1), nm |-> Alt(n)]}
-PartD(n) == {Case(Hier(d, rv, AllClass(n), AbsButLast(n), m.np, m.ni, m.nm, Const(n, "none")),
-                  Identity(n), st, "D")
-             : d \in Dags(n), rv \in BOOLEAN, m \in MemberProfiles(n),
-               st \in {"super_first", "own_first", "super_rev"}}
+Writings(n, full) ==
+    IF full \/ n <= 3
+    THEN {[rv |-> rv, st |-> st] : rv \in BOOLEAN, st \in {"super_first", "own_first", "super_rev"}}
+    ELSE {[rv |-> FALSE, st |-> "super_first"], [rv |-> TRUE, st |-> "own_first"], [rv |-> TRUE, st |-> "super_rev"]}
+PartD(n, full) ==
+    {Case(Hier(d, w.rv, AllClass(n), AbsButLast(n), m.np, m.ni, m.nm, Const(n, "none")),
+          Identity(n), w.st, "D")
+     : d \in Dags(n), m \in MemberProfiles(n), w \in Writings(n, full)}
 \* E: hierarchies of constrained primitives (roots constrain str)
-PartE(n) == {Case(Hier(d, rv, AllCprim(n), Const(n, FALSE), Const(n, 0), ni, Const(n, 0), Const(n, "none")),
-                  r, "super_first", "E")
-             : d \in Dags(n), rv \in BOOLEAN, ni \in {Const(n, 1), Mod3(n)}, r \in {Identity(n), Rev(Identity(n))}}
+PartE(n, full) ==
+    {Case(Hier(d, v.rv, AllCprim(n), Const(n, FALSE), Const(n, 0), v.ni, Const(n, 0), Const(n, "none")),
+          v.r, "super_first", "E")
+     : d \in Dags(n),
+       v \in IF full \/ n <= 3
+              THEN {[rv |-> rv, ni |-> ni, r |-> r] : rv \in BOOLEAN, ni \in {Const(n, 1), Mod3(n)},
+                                                     r \in {Identity(n), Rev(Identity(n))}}
+              ELSE {[rv |-> TRUE, ni |-> Mod3(n), r |-> Identity(n)], [rv |-> FALSE, ni |-> Const(n, 1), r |-> Rev(Identity(n))]}}
 \* F: classes and constrained primitives side by side (the first k members are constrained primitives)
-PartF(n) ==
+PartF(n, full) ==
     UNION {{Case(Hier(d, TRUE, [c \in 1..n |-> IF c <= k THEN "cprim" ELSE "class"],
                       [c \in 1..n |-> c > k /\ c < n], Const(n, 1), Const(n, 1), Const(n, 0), Const(n, "none")),
                  r, "super_first", "F")
             : r \in {Identity(n), Rev(Identity(n))},
               d \in {dd \in Dags(n) : \A c \in 1..n : \A b \in dd[c] : (b <= k) <=> (c <= k)}}
            : k \in 1..(n - 1)}
-
 \* H: the written constructor assigns its own properties twice
-PartH(n) == {Case(Hier(d, TRUE, AllClass(n), AbsButLast(n), Const(n, 1), Const(n, 0), Const(n, 0), Const(n, "none")),
-                  Identity(n), "own_twice", "H")
-             : d \in Dags(n)}
+PartH(n, full) ==
+    {Case(Hier(d, TRUE, AllClass(n), AbsButLast(n), Const(n, 1), Const(n, 0), Const(n, 0), Const(n, "none")),
+          Identity(n), "own_twice", "H")
+     : d \in Dags(n)}
+
+AllParts(n, full) ==
+    PartA(n, full) \cup PartB(n, full) \cup PartC(n, full) \cup PartD(n, full) \cup PartE(n, full)
+    \cup PartF(n, full) \cup PartH(n, full)
+\* a fifth class (thorough tier): flags, a handful of name assignments, two member profiles, cprims
+Part5 ==
+    PartA(5, FALSE)
+    \cup {cs \in PartB(5, FALSE) : TRUE}
+    \cup {cs \in PartD(5, FALSE) : cs.h.props[1] # <<>> /\ cs.h.methods[5] = <<>>}
+    \cup PartE(5, FALSE)
 
 \* every digraph (cycles, self loops, bases declared later): only the sort is meaningful on these
 PartG(n, allNames) == {Case(Hier(d, FALSE, AllClass(n), Const(n, FALSE), Const(n, 0), Const(n, 0), Const(n, 0), Const(n, "none")),
                   r, "super_first", "G")
              : d \in Digraphs(n, n), r \in IF allNames THEN Perms(n) ELSE {Identity(n), Rev(Identity(n))}}
 
-UpTo(P(_), N) == UNION {P(n) : n \in 1..N}
+UpTo(N, full) == UNION {AllParts(n, full) : n \in 1..N}
 =============================================================================
